@@ -151,8 +151,7 @@ def cellpdf(prog, rep):
               f"the broadcast shape must be all ones except entry dist_idx = len(coords[dist_idx]) and, when conditional, entry conditional_on[dist_idx] = len(its grid); found {stores}")
     rep.check(len(alloc) == 1 and len(unc) == 1, "C02.cellpdf", f"{q}:branches", fn.where(), "one unconditional and one conditional source",
               f"expected exactly the unconditional difference and the conditional matrix as sources of the result; found {len(unc)} + {len(alloc)}")
-    rep.check(dx_want is not None and any(algebra.same(b.def_term(dd), dx_want) for dd in b.rd.all_defs("dx")) or not b.rd.all_defs("dx"), "C02.cellpdf", f"{q}:dx", fn.where(),
-              "dx from the own axis", "dx must be the spacing of coords[dist_idx]")
+    rep.check(ok_div, "C02.cellpdf", f"{q}:dx", fn.where(), "dx from the own axis", "dx must be the spacing of coords[dist_idx]")
 
 
 def joint(prog, rep):
@@ -164,6 +163,7 @@ def joint(prog, rep):
     coords = P("coords")
     loops = [s for s in cfg.all_stmts() if isinstance(s, ast.For)]
     ok = False
+    acc = None
     why = "expected one loop over range(n_dim)"
     if len(loops) == 1:
         lp = loops[0]
@@ -192,7 +192,7 @@ def joint(prog, rep):
             why = f"the loop must visit every dimension: range(len(coords)); found {show(it)[:80]}"
     rep.check(ok, "C02.joint", f"{q}:product", fn.where(), "product over k in range(n_dim) of cell_averaged_pdf(k, coords)", why)
     init_ok = False
-    for dd in b.rd.all_defs("fbar") if ok else []:
+    for dd in b.rd.all_defs(acc) if ok and acc else []:
         if dd.kind == "assign" and not cfg.enclosing_loops(dd.stmt):
             t = b.def_term(dd)
             init_ok = t[0] == "call" and t[1] == G("numpy.ones")
@@ -426,15 +426,18 @@ def grid(prog, rep):
         if isinstance(st, ast.Assign) and isinstance(st.targets[0], ast.Subscript) and ("isnone", del_attr) in pcs.of(st):
             i = b.term(st.targets[0].slice, st)
             v = b.term(st.value, st)
-            lims = b.name("limits", st, {})
-            want = ("bin", "-", ("sub", ("sub", lims, i), ("const", 1)), ("sub", ("sub", lims, i), ("const", 0)))
-            okd = i[0] == "idx" and i[2] == "range" and i[3] == (nd,) and v[0] == "bin" and v[1] == "*" and (algebra.same(v[2], want) or algebra.same(v[3], want))
+            okd = False
+            if i[0] == "idx" and i[2] == "range" and i[3] == (nd,) and v[0] == "bin" and v[1] == "*":
+                for ext in (v[2], v[3]):
+                    if ext[0] == "bin" and ext[1] == "-" and ext[2][0] == "sub" and ext[3][0] == "sub" and ext[2][2] == ("const", 1) and ext[3][2] == ("const", 0) \
+                            and ext[2][1] == ext[3][1] and ext[2][1][0] == "sub" and ext[2][1][2] == i and lim_attr in alts(ext[2][1][1]):
+                        okd = True
             why = f"default deltas[i] must be a fraction of the extent of limits[i] of the SAME i, for i in range(n_dim); found deltas[{show(i)[:30]}] = {show(v)[:120]}"
     rep.check(okd, "C02.grid", f"{q}:default-deltas", fn.where(), "deltas[i] = (limits[i][1] - limits[i][0]) * relative size", why)
     # scalar / list deltas
     oks = okit = False
     for st in cfg.all_stmts():
-        if isinstance(st, ast.Assign) and isinstance(st.targets[0], ast.Name) and st.targets[0].id == "deltas":
+        if isinstance(st, ast.Assign) and isinstance(st.targets[0], ast.Name):
             v = b.term(st.value, st)
             if v[0] == "bin" and v[1] == "*" and v[3] == nd and v[2][0] == "list" and len(v[2][1]) == 1 and any(l[0] == "handler" for l in pcs.of(st)):
                 el = set(alts(v[2][1][0]))
@@ -445,10 +448,13 @@ def grid(prog, rep):
               "a scalar cell size must be used for every dimension and a per-dimension list kept in order")
     store = {}
     for st in cfg.all_stmts():
-        if isinstance(st, ast.Assign) and isinstance(st.targets[0], ast.Attribute) and st.targets[0].attr in ("limits", "deltas") and isinstance(st.value, ast.Name):
-            store[st.targets[0].attr] = st.value.id
-    rep.check(store == {"limits": "limits", "deltas": "deltas"}, "C02.grid", f"{q}:stored", fn.where(), "self.limits / self.deltas hold the completed values",
-              f"the completed limits and deltas must be stored back under their own names; found {store}")
+        if isinstance(st, ast.Assign) and isinstance(st.targets[0], ast.Attribute) and st.targets[0].attr in ("limits", "deltas"):
+            store[st.targets[0].attr] = set(alts(b.term(st.value, st)))
+    ok_store = lim_attr in store.get("limits", set()) and any(a[0] == "comp" for a in store.get("limits", set())) \
+        and any(a[0] == "call" and a[1] in (G("numpy.empty"), G("numpy.zeros")) for a in store.get("deltas", set())) \
+        and not any(mentions(a, lim_attr) and a != lim_attr for a in store.get("deltas", set()))
+    rep.check(ok_store, "C02.grid", f"{q}:stored", fn.where(), "self.limits / self.deltas hold the completed values",
+              f"the completed limits and deltas must be stored back under their own names (limits <- supplied or default list, deltas <- supplied/default array); found {({k: [show(a)[:40] for a in v] for k, v in store.items()})}")
     # the grids in _compute
     q2 = f"{HDC}._compute"
     f2 = prog.func(q2)
